@@ -7,6 +7,24 @@ static unsigned char *ha_copy(int k) {   /* exact-size heap copy of argument k (
     if (is_none(k)) return NULL;
     p = malloc(L(k) ? L(k) : 1); memcpy(p, B(k), L(k)); return p;
 }
+/* the in/out aggsig buffer: exact size under ASan (which then reports any write past it); otherwise followed
+ * by a 64-byte canary that is checked after the call, so that a write past *aggsig_len is reported as #-77
+ * instead of corrupting the heap of the driver */
+#if defined(__SANITIZE_ADDRESS__)
+#define HA_SLACK 0
+#else
+#define HA_SLACK 64
+#endif
+static unsigned char *ha_outbuf(int k) {
+    unsigned char *p;
+    if (is_none(k)) return NULL;
+    p = malloc(L(k) + HA_SLACK + 1); memcpy(p, B(k), L(k)); memset(p + L(k), 0xC3, HA_SLACK); return p;
+}
+static int ha_canary_ok(const unsigned char *p, int k) {
+    size_t i; if (!p) return 1;
+    for (i = 0; i < HA_SLACK; i++) if (p[L(k) + i] != 0xC3) return 0;
+    return 1;
+}
 static secp256k1_xonly_pubkey *ha_pks(int k) {
     size_t n, i; secp256k1_xonly_pubkey *p;
     if (is_none(k)) return NULL;
@@ -22,9 +40,10 @@ static void ha_inc(size_t nb, size_t nn) {
     reads = !is_none(0) && !is_none(1) && n >= nb && !((len / 32) <= 0 || ((len / 32) - 1) < n);
     if (!is_none(0) && !is_none(1) && L(0) < len) { out_int(-98); return; }
     if (reads && ((!is_none(2) && L(2) < 64 * n) || (!is_none(3) && L(3) < 32 * n) || (!is_none(4) && L(4) < 64 * nn))) { out_int(-98); return; }
-    agg = ha_copy(0); pks = ha_pks(2); msgs = ha_copy(3); sigs = ha_copy(4);
+    agg = ha_outbuf(0); pks = ha_pks(2); msgs = ha_copy(3); sigs = ha_copy(4);
     ret = secp256k1_schnorrsig_inc_aggregate(CTX, agg, plen, pks, msgs, sigs, nb, nn);
     out_int(ret);
+    if (!ha_canary_ok(agg, 0)) out_int(-77);
     if (plen) out_u64(len); else out_none();
     if (agg) out_bytes(agg, L(0)); else out_none();
     free(agg); free(pks); free(msgs); free(sigs);
@@ -39,9 +58,10 @@ static void op_schnorrsig_aggregate(void) {
     reads = !is_none(0) && !is_none(1) && !((len / 32) <= 0 || ((len / 32) - 1) < n);
     if (!is_none(0) && !is_none(1) && L(0) < len) { out_int(-98); return; }
     if (reads && ((!is_none(2) && L(2) < 64 * n) || (!is_none(3) && L(3) < 32 * n) || (!is_none(4) && L(4) < 64 * n))) { out_int(-98); return; }
-    agg = ha_copy(0); pks = ha_pks(2); msgs = ha_copy(3); sigs = ha_copy(4);
+    agg = ha_outbuf(0); pks = ha_pks(2); msgs = ha_copy(3); sigs = ha_copy(4);
     ret = secp256k1_schnorrsig_aggregate(CTX, agg, plen, pks, msgs, sigs, n);
     out_int(ret);
+    if (!ha_canary_ok(agg, 0)) out_int(-77);
     if (plen) out_u64(len); else out_none();
     if (agg) out_bytes(agg, L(0)); else out_none();
     free(agg); free(pks); free(msgs); free(sigs);
